@@ -996,6 +996,8 @@ class Interp:
             return z3.BoolVal(a.oid == b.oid)
         if isinstance(a, VList) and isinstance(b, VList):
             return z3.BoolVal(a.oid == b.oid)
+        if isinstance(a, VDict) and isinstance(b, VDict):
+            return z3.BoolVal(a.oid == b.oid)
         if isinstance(a, VDyn) or isinstance(b, VDyn):
             return self.world.dyn_identical(self, a, b, node)
         if isinstance(a, VBool) and isinstance(b, VBool):
@@ -1303,7 +1305,7 @@ class Interp:
         raise Unsupported(f"slice of {v!r}")
 
     def index(self, v, idx, node):
-        if self.st.spec and (isinstance(idx, (VAtom, VOpaque)) or isinstance(v, VOpaque)):
+        if self.st.spec and (isinstance(idx, (VAtom, VOpaque)) or isinstance(v, (VOpaque, VAtom))):
             return VOpaque("undefined subscript in a specification")   # total inside clauses
         if isinstance(v, VStr):
             i = self.as_int(idx, node)
@@ -1724,10 +1726,9 @@ class Interp:
                   if n.lineno == node.lineno and n.col_offset == node.col_offset), None)
         clauses = self.contract.call_pre.get(f"{name}#{k}")
         if clauses is None:
-            # a call of this callee that the contract does not know
-            self.oblige("CALL", f"{name}: call site #{k} has no assertion", z3.BoolVal(False),
-                        node.lineno)
-            return
+            # a call of this callee that the contract does not know (e.g. after a refactoring):
+            # the contract does not fit the code - undecided, not a violation
+            raise Unsupported(f"call site #{k} of {name} has no call-site assertion in the contract")
         env2 = dict(self.st.env)
         env2.update({"arg_" + p: v for p, v in env.items()})
         # entry_<param>: the value a (possibly rebound) parameter had on entry
@@ -2419,9 +2420,11 @@ class Interp:
                 g = self.spec_eval(clause, self.st.env, ref, extra=extra)
             except Unsupported as e:
                 if "unknown name" in str(e) and _never_bound(self.fnref.node, str(e)):
-                    # the invariant talks about a local the function no longer has
-                    self.oblige(kind, f"loop {ordinal}: {clause}", False, self.cur_line)
-                    continue
+                    # the invariant talks about a local the function no longer has (renamed or
+                    # removed): the contract does not fit the code any more - undecided, not a
+                    # violation (a harmless rename must not raise an alarm)
+                    raise Unsupported(f"contract clause mentions a local the function no longer "
+                                      f"binds ({e}): loop {ordinal}: {clause}")
                 raise
             self.oblige(kind, f"loop {ordinal}: {clause}", g, self.cur_line)
 
@@ -2582,9 +2585,8 @@ class Interp:
                             except Unsupported as e:
                                 if "unknown name" in str(e):
                                     if _never_bound(self.fnref.node, str(e)):
-                                        self.oblige("RET-IN-LOOP", f"loop {ordinal}: {clause} [{e}: "
-                                                    "the function no longer binds it]", False,
-                                                    self.cur_line)
+                                        raise Unsupported(f"contract clause mentions a local the function no longer "
+                                                          f"binds ({e}): loop {ordinal}: {clause}")
                                     continue
                                 raise
                             self.oblige("RET-IN-LOOP", f"loop {ordinal}: {clause}", g, self.cur_line)
@@ -2596,8 +2598,8 @@ class Interp:
                         except Unsupported as e:
                             if "unknown name" in str(e):
                                 if _never_bound(self.fnref.node, str(e)):
-                                    self.oblige("STEP", f"loop {ordinal}: {clause} [{e}: the "
-                                                "function no longer binds it]", False, self.cur_line)
+                                    raise Unsupported(f"contract clause mentions a local the function no longer "
+                                                      f"binds ({e}): loop {ordinal}: {clause}")
                                 continue   # mentions a local that is not bound on this path
                             raise
                         self.oblige("STEP", f"loop {ordinal}: {clause}", g, self.cur_line)
@@ -2609,8 +2611,8 @@ class Interp:
                         except Unsupported as e:
                             if "unknown name" in str(e):
                                 if _never_bound(self.fnref.node, str(e)):
-                                    self.oblige("ITER", f"loop {ordinal}: {clause} [{e}: the "
-                                                "function no longer binds it]", False, self.cur_line)
+                                    raise Unsupported(f"contract clause mentions a local the function no longer "
+                                                      f"binds ({e}): loop {ordinal}: {clause}")
                                 continue
                             raise
                         self.oblige("ITER", f"loop {ordinal}: {clause}", g, self.cur_line)
